@@ -730,7 +730,7 @@ def jobs(tier):
     allg = list(GROUPS)
     for p in ('none', 'clear', 'obf', 'both'):
         for par in (('none', 'other_root') if q else ('none', 'other_root', 'own_root')):
-            for au in (['exists'] if q else ['exists', 'silent']):
+            for au in (['exists'] if q or par != 'none' else ['exists', 'silent']):
                 out.append(_job(ok, sym=allg, n=1 if q else 2, ports=p, parent=par, shares='counts', add_user=au,
                                 cmd=(len(out) % len(COMMANDS))))
     if not q:
